@@ -123,9 +123,9 @@ def add_metrics(draw, spec, max_met=4):
 
 
 @st.composite
-def add_conns(draw, spec, max_choices=2, max_side=3, allow_grp=True, small=False, start_bias=2):
+def add_conns(draw, spec, max_choices=2, max_side=3, allow_grp=True, small=False, start_bias=2, min_choices=None):
     gens = gen_nodes(spec)
-    n_cc = draw(st.integers(1, max_choices))
+    n_cc = draw(st.integers(1, max_choices)) if min_choices is None else draw(st.integers(min_choices, max_choices))
     alphabet = DEG_ALPHABET
     for i_cc in range(n_cc):
         cc = {'id': f'k{i_cc}', 'src': [], 'tgt': [], 'excl': []}
@@ -316,3 +316,12 @@ def labels(spec):
     if not spec['choices']:
         out.append('no_choice')
     return sorted(set(out))
+
+
+@st.composite
+def two_conn_spec(draw, max_nodes=7):
+    """Small selection graph with two connection choices whose connectors are mostly conditional (scenarios without a
+    valid connection set for the first or the second choice)"""
+    spec = draw(sel_spec(min_nodes=3, max_nodes=max_nodes, max_incompat=0, p_extra=False))
+    spec = draw(add_conns(spec, max_choices=2, min_choices=2, small=True, start_bias=0, allow_grp=draw(st.booleans())))
+    return spec
